@@ -27,7 +27,9 @@ CONSTANTS Dim,       \* dimension of the space
           KSet,      \* k values for k-nearest
           RSet,      \* squared radii for within-radius
           BoxCodes,  \* corner points of the query boxes of DoBounded (encoded like QCodes)
-          Emit       \* BOOLEAN: generator role
+          Emit,      \* BOOLEAN: generator role
+          Far        \* BOOLEAN: the coordinates are level-coded values of astronomically different
+                     \* magnitudes and distances are extended values (see "far coordinates" below)
 
 VARIABLES built, ins
 vars == <<built, ins>>
@@ -49,9 +51,90 @@ Queries == {Decode(c) : c \in QCodes}
 (************************ exact geometry on the lattice *********************)
 RECURSIVE SumSq(_, _, _)
 SumSq(p, q, i) == IF i = 0 THEN 0 ELSE (p[i] - q[i]) * (p[i] - q[i]) + SumSq(p, q, i - 1)
-Dist2(p, q) == SumSq(p, q, Len(p))            \* squared Euclidean distance
 
-IsSquare(n) == \E m \in 0 .. 64 : m * m = n   \* (lattice distances are far below 64^2)
+(***************************** far coordinates ********************************)
+(* A bag of points does not stop being a bag when some of its points are      *)
+(* astronomically far away: the k nearest of N points are min(k, N) points    *)
+(* even if the squared distance to some of them is not finite in float64, and  *)
+(* a ball of infinite radius holds everything.  With Far = TRUE an encoded      *)
+(* coordinate x stands, with a = x - Off, for the float64 value                 *)
+(*      a                          if |a| <= 8              (level 0)           *)
+(*      sgn(a) (|a| -  8) 2^500    if  9 <= |a| <= 15       (level 1)           *)
+(*      sgn(a) (|a| - 16) 2^600    if 17 <= |a| <= 23       (level 2)           *)
+(* Every such value is a float64, and the coding is strictly monotone, so the   *)
+(* integer order on codes (boxes, Contains, DoBounded) is the order of the      *)
+(* values.  A distance is an EXTENDED value coded as lev * DB + v:              *)
+(*      v (exact integer) | v 2^1000 (exact, finite) | +Inf  (lev = 2, v = 0)   *)
+(* and again the integer order on codes is the order of the values, +Inf        *)
+(* greatest.  FarDist2 is the value of sum_i (p_i - q_i)^2 evaluated in IEEE    *)
+(* double arithmetic, round to nearest (kdtree.Point.Distance and every other   *)
+(* Distance method used by the harness are that loop), which on these values    *)
+(* does not depend on the order of evaluation:                                   *)
+(*  - two coordinates of one level differ by an exact multiple of the level's    *)
+(*    unit; for different levels the higher one absorbs the lower (|v| <= 7:     *)
+(*    half an ulp of 2^500 is 2^447 > 8, half an ulp of 2^600 is 2^547 > 7 2^500)*)
+(*    and the difference is the higher coordinate (or its negative) exactly;      *)
+(*  - the square of a level 1 difference d 2^500 is d^2 2^1000 (exact, finite,    *)
+(*    d^2 <= 196), the square of a non-zero level 2 difference is >= 2^1200,      *)
+(*    i.e. +Inf;                                                                  *)
+(*  - a sum with an infinite term is +Inf; otherwise level 1 terms add exactly    *)
+(*    (small integer multiples of 2^1000) and absorb every level 0 term (< 2^10). *)
+(* FarLemma below re-derives the three rules by evaluating the loop step by step, *)
+(* with explicit round-to-nearest-even, in a scaled-down binary floating point    *)
+(* format (8 significant bits, overflow at 2^30, level units 2^11 and 2^21: the    *)
+(* same margins in miniature) and comparing with what FarDist2 denotes there.      *)
+DB == 4096
+AbsI(a) == IF a < 0 THEN -a ELSE a
+Lev(a) == IF AbsI(a) <= 8 THEN 0 ELSE IF AbsI(a) <= 15 THEN 1 ELSE 2
+Val(a) == LET m == AbsI(a) - 8 * Lev(a) IN IF a < 0 THEN -m ELSE m
+FarExp == <<0, 500, 600>>                      \* binary exponent of the unit of each level
+ValidFar(x) == LET a == x - Off IN AbsI(a) <= 23 /\ AbsI(a) # 16
+\* one term (p_i - q_i)^2 as <<level, value>>
+FTerm(x, y) ==
+    LET a == x - Off  b == y - Off IN
+    IF Lev(a) = Lev(b)
+    THEN LET d == Val(a) - Val(b) IN <<IF d = 0 THEN 0 ELSE Lev(a), d * d>>
+    ELSE IF Lev(a) > Lev(b) THEN <<Lev(a), Val(a) * Val(a)>> ELSE <<Lev(b), Val(b) * Val(b)>>
+RECURSIVE FTop(_, _, _), FSumAt(_, _, _, _)
+FTop(p, q, i) == IF i = 0 THEN 0 ELSE LET t == FTerm(p[i], q[i])[1]  r == FTop(p, q, i - 1) IN IF t > r THEN t ELSE r
+FSumAt(p, q, i, lv) == IF i = 0 THEN 0
+                       ELSE LET t == FTerm(p[i], q[i]) IN (IF t[1] = lv THEN t[2] ELSE 0) + FSumAt(p, q, i - 1, lv)
+FarDist2(p, q) == LET top == FTop(p, q, Len(p)) IN
+                  IF top = 2 THEN 2 * DB ELSE top * DB + FSumAt(p, q, Len(p), top)
+InfD == 2 * DB                                 \* the code of +Inf
+
+Dist2(p, q) == IF Far THEN FarDist2(p, q) ELSE SumSq(p, q, Len(p))     \* squared Euclidean distance
+
+\* ---- the rounding lemma in a miniature binary floating point format (R1, TLC integers suffice) ----
+MP == 8                                        \* significant bits
+MEmax == 30                                    \* results >= 2^MEmax overflow to +Inf
+MUnit == <<0, 11, 21>>                         \* binary exponents of the level units
+MInf == -1                                     \* +Inf among the non-negative results
+Log2F(n) == CHOOSE e \in 0 .. 30 : 2^e <= n /\ n < 2 * (2^e)          \* n >= 1
+RoundP(n) == IF n < 2^MP THEN n                \* round to nearest, ties to even, n >= 0
+             ELSE LET u == 2^(Log2F(n) - (MP - 1))  q == n \div u  r == n % u  h == u \div 2 IN
+                  IF r > h \/ (r = h /\ q % 2 = 1) THEN (q + 1) * u ELSE q * u
+MOver(r) == IF r >= 2^MEmax THEN MInf ELSE r
+MSub(x, y) == IF x >= y THEN RoundP(x - y) ELSE -RoundP(y - x)
+MSq(d) == LET a == AbsI(d) IN
+          IF a = 0 THEN 0 ELSE IF 2 * Log2F(a) >= MEmax THEN MInf ELSE MOver(RoundP(a * a))
+MAdd(x, y) == IF x = MInf \/ y = MInf THEN MInf ELSE MOver(RoundP(x + y))
+MiniVal(x) == LET a == x - Off IN Val(a) * 2^(MUnit[Lev(a) + 1])
+RECURSIVE MLoopUp(_, _, _, _), MLoopDown(_, _, _, _)
+MLoopUp(p, q, i, acc) == IF i > Len(p) THEN acc
+                         ELSE MLoopUp(p, q, i + 1, MAdd(acc, MSq(MSub(MiniVal(p[i]), MiniVal(q[i])))))
+MLoopDown(p, q, i, acc) == IF i = 0 THEN acc
+                           ELSE MLoopDown(p, q, i - 1, MAdd(acc, MSq(MSub(MiniVal(p[i]), MiniVal(q[i])))))
+MiniDenote(d) == IF d >= InfD THEN MInf ELSE (d % DB) * 2^(2 * MUnit[(d \div DB) + 1])
+MiniCodes == {Off + a : a \in {-4, -1, 0, 2, 4, -11, -9, 10, -18, 17, 19}}
+FarLemma == \A dm \in 1 .. 2 : \A p, q \in [1 .. dm -> MiniCodes] :
+               /\ MLoopUp(p, q, 1, 0) = MiniDenote(FarDist2(p, q))
+               /\ MLoopDown(p, q, dm, 0) = MiniDenote(FarDist2(p, q))
+ASSUME Far => \A x \in Coords : ValidFar(x)
+
+IsSquare0(n) == \E m \in 0 .. 64 : m * m = n  \* (lattice distances are far below 64^2)
+\* the square root of the distance is exact (perfect square, times 2^1000 or not; +Inf)
+IsSquare(n) == IF Far THEN n >= InfD \/ IsSquare0(n % DB) ELSE IsSquare0(n)
 
 \* the linear scan: distance from q to every stored point, in storage order
 DistSeq(P, q) == [i \in 1 .. Len(P) |-> Dist2(P[i], q)]
@@ -228,6 +311,8 @@ QueryRec(q) ==
    knn |-> [i \in DOMAIN Ks |-> KNearest(D, Ks[i])],
    within |-> [i \in DOMAIN Rs |-> Within(D, Rs[i])],
    inbox |-> InBox(All, q),
+   \* qfin: the query is finitely distant from every stored point (always, on the plain lattice)
+   qfin |-> \A i \in 1 .. Len(D) : ~Far \/ D[i] < InfD,
    \* exact: every distance a vantage point tree can meet while answering q (query to
    \* stored point, stored point to stored point) is an integer, hence exact in floating point
    exact |-> /\ \A i \in 1 .. Len(D) : IsSquare(D[i])
@@ -236,6 +321,10 @@ QueryRec(q) ==
 EmitState ==
   Emit => PrintT(ToJson(
     [k |-> "h", dim |-> Dim, built |-> ActSeq(built), ins |-> ActSeq(ins), n |-> Len(All),
+     \* far coordinates: binary exponents of the level units and the radix of the distance codes (<<>> / 0 on the lattice);
+     \* pfin: the stored points are pairwise finitely distant (vptree: "Points in p must not be infinitely distant")
+     far |-> IF Far THEN FarExp ELSE <<>>, db |-> IF Far THEN DB ELSE 0,
+     pfin |-> \A i, j \in 1 .. Len(All) : ~Far \/ Dist2(All[i], All[j]) < InfD,
      bounded |-> {[cb |-> cb, ee |-> ee, bb |-> bb, ib |-> ib, v |-> Mode(cb, ee, Len(built), Len(ins), bb, ib)] :
                      cb \in BOOLEAN, ee \in BOOLEAN, bb \in BOOLEAN, ib \in BOOLEAN},
      box |-> IF Len(All) = 0 THEN <<>> ELSE <<Act(BoxMin(All)), Act(BoxMax(All))>>,
